@@ -138,6 +138,7 @@ fn small_alphabet() -> Vec<Op> {
         Op::Add(sv(&["a"]), "b".into(), sv(&["y"])),
         Op::Opt(sv(&["b"]), "a".into()),
         Op::Remove(sv(&["a"]), "b".into()),
+        Op::Add(r.clone(), "c".into(), sv(&["x", "y", "x"])),
     ]
 }
 fn rand_path(rng: &mut Rng, names: &[String]) -> Vec<String> {
@@ -313,9 +314,9 @@ pub fn run(ctx: &mut Ctx) {
     ctx.meta.push(("evaluations", J::N(evaluations)));
     ctx.meta.push(("distinct_nontrivial", J::N(distinct.len() as i64)));
     ctx.meta.push(("rule", json::s(format!(
-        "operation sequences on Element::new(r,[x]): all {}^{} sequences over a 17-operation alphabet (add / add a clone / move between parents / mark optional / remove / merge attribute list / set multiple / set text, at the root and at child paths of depth <= 2; state observed after every step, so all shorter sequences are covered), {} random sequences of length 1-30 over small, adversarial and random name pools (duplicate names in attribute lists included); non-trivial = at least 2 operations, distinct by sequence",
+        "operation sequences on Element::new(r,[x]): all {}^{} sequences over a 18-operation alphabet (add / add a clone / move between parents / mark optional / remove / merge attribute list / set multiple / set text, at the root and at child paths of depth <= 2; state observed after every step, so all shorter sequences are covered), {} random sequences of length 1-30 over small, adversarial and random name pools (duplicate names in attribute lists included); non-trivial = at least 2 operations, distinct by sequence",
         alpha.len(), l, n_rand))));
-    ctx.meta.push(("exhaustive_part", json::s(format!("all sequences of length {} over the 17-operation alphabet", l))));
+    ctx.meta.push(("exhaustive_part", json::s(format!("all sequences of length {} over the 18-operation alphabet", l))));
     ctx.meta.push(("histogram", hist.json()));
     ctx.meta.push(("samples", J::A(samples)));
 }
